@@ -43,6 +43,11 @@ template<int D> void bad_step(view_t<D>& v, std::string const& kind, std::vector
 		if(kind == "index") {
 			if constexpr(D == 1) { touched = const_cast<long*>(&v[a[0]]); sink = *touched; }
 			else { auto&& s = v[a[0]]; touched = const_cast<long*>(s.base()); }
+		} else if(kind == "index_far_up" || kind == "index_far_down") {
+			// an index 2^32 away from a valid one (the offset a[0] is valid): must be stopped like any other; nothing is read
+			long const far = a[0] + (kind == "index_far_up" ? (1L << 32) : -(1L << 32));
+			if constexpr(D == 1) { touched = const_cast<long*>(&v[far]); }
+			else { auto&& s = v[far]; touched = const_cast<long*>(s.base()); }
 		} else if(kind == "deep_index") { touched = const_cast<long*>(first_valid_chain(v, a[0])); sink = *touched; }
 		else if(kind == "call_first") { touched = call_with<D>(v, a[0], true); sink = *touched; }
 		else if(kind == "call_last") { touched = call_with<D>(v, a[0], false); sink = *touched; }
